@@ -11,7 +11,7 @@ import Bptk.Core.C17
   <reply> = ok|err;live=id:last:timeout:sess,…;destroyed=id,…;stored=id:timeout,…   (stored: effective entry per id, by id)
 wave 2:
   ev <now> create <signed-µs>        (a negative timeout runs as 0: `clampTimeout`)
-  ev <now> stop <id> | savestate | loadstate
+  ev <now> stop <id> | savestate | loadstate      (savestate: always ok; stores the instances that have a session)
   qmicros w d h m s ms us            -> <Int>   (unit values in QUARTERS; timedelta rounds half to even)
   live is printed by ascending id and the ids destroyed by ONE request in ascending order (dict / directory
   listing order after a load-state is not part of the model)
